@@ -162,7 +162,10 @@ func inlineNewHelpers(repo string) inlineResult {
 						}
 						src = b
 					}
-					out, n := substExprHelpers(p, f, src, counts)
+					out, n := methodValuesToClosures(p, f, src)
+					if n == 0 {
+						out, n = substExprHelpers(p, f, src, counts)
+					}
 					if n == 0 {
 						out, n = inlineFile(p, f, src, &uniq, counts)
 					}
@@ -1618,4 +1621,84 @@ func usedAsFuncValue(p *packages.Package, fn *types.Func) bool {
 		}
 	}
 	return found
+}
+
+// methodValuesToClosures: a NEW helper used as a bound method value — `timeAfterFunc(d, me.completeSwitch)` — is rewritten
+// into the closure that calls it, `func() { me.completeSwitch() }`, so that the call can be inlined in a later round. A
+// method value binds its receiver when it is evaluated, the closure reads the variable when it runs: the rewrite is made
+// only when the receiver is a plain local variable or parameter that its function never assigns.
+func methodValuesToClosures(p *packages.Package, f *ast.File, src []byte) ([]byte, int) {
+	fset := p.Fset
+	off := func(pos token.Pos) int { return fset.Position(pos).Offset }
+	info := p.TypesInfo
+	decls := map[*types.Func]*ast.FuncDecl{}
+	for _, g := range p.Syntax {
+		for _, d := range g.Decls {
+			if fd, ok := d.(*ast.FuncDecl); ok && fd.Body != nil && fd.Recv != nil && !fd.Name.IsExported() && !knownFuncs[declKey(p.Name, fd)] {
+				if obj, _ := info.Defs[fd.Name].(*types.Func); obj != nil {
+					decls[obj] = fd
+				}
+			}
+		}
+	}
+	if len(decls) == 0 {
+		return src, 0
+	}
+	callee := map[*ast.SelectorExpr]bool{}
+	ast.Inspect(f, func(n ast.Node) bool {
+		if ce, ok := n.(*ast.CallExpr); ok {
+			if se, isSel := ce.Fun.(*ast.SelectorExpr); isSel {
+				callee[se] = true
+			}
+		}
+		return true
+	})
+	var edits []edit
+	for _, d := range f.Decls {
+		encl, ok := d.(*ast.FuncDecl)
+		if !ok || encl.Body == nil {
+			continue
+		}
+		ast.Inspect(encl.Body, func(n ast.Node) bool {
+			se, ok := n.(*ast.SelectorExpr)
+			if !ok || callee[se] {
+				return true
+			}
+			sel := info.Selections[se]
+			if sel == nil || sel.Kind() != types.MethodVal {
+				return true
+			}
+			fn, _ := sel.Obj().(*types.Func)
+			fd := decls[fn]
+			recv, isId := se.X.(*ast.Ident)
+			if fd == nil || !isId || !plainLocal(info, recv) || assignedIn(info, encl.Body, info.Uses[recv]) {
+				return true
+			}
+			sig := fn.Type().(*types.Signature)
+			if sig.Variadic() || !types.Identical(info.TypeOf(recv), sig.Recv().Type()) {
+				return true
+			}
+			var params, args []string
+			for i := 0; i < sig.Params().Len(); i++ {
+				name := fmt.Sprintf("a%d__mv", i)
+				params = append(params, name+" "+types.TypeString(sig.Params().At(i).Type(), types.RelativeTo(p.Types)))
+				args = append(args, name)
+			}
+			res, ret := "", ""
+			if sig.Results().Len() > 0 {
+				var rs []string
+				for i := 0; i < sig.Results().Len(); i++ {
+					rs = append(rs, types.TypeString(sig.Results().At(i).Type(), types.RelativeTo(p.Types)))
+				}
+				res, ret = " ("+strings.Join(rs, ", ")+")", "return "
+			}
+			text := fmt.Sprintf("func(%s)%s { %s%s.%s(%s) }", strings.Join(params, ", "), res, ret, recv.Name, se.Sel.Name, strings.Join(args, ", "))
+			edits = append(edits, edit{off(se.Pos()), off(se.End()), text})
+			return false
+		})
+	}
+	if len(edits) == 0 {
+		return src, 0
+	}
+	return applyEdits(src, edits), len(edits)
 }
